@@ -66,9 +66,9 @@ Lemma c12d_skeletons_ok :
 Proof. vm_compute. repeat split; reflexivity. Qed.
 
 (* the characterisation of the event for the variant the source selects *)
-Lemma dispatch_spec_code_variant apply_spec lp am ss st lv :
-  wf lp -> print lp <> [] -> Forall ssink_wf ss ->
-  dispatch_event src_hoist apply_spec {| po_pattern := print lp; po_add_meta := am |}
+Lemma dispatch_spec_code_variant v apply_spec lp am ss st lv :
+  wfv v lp -> print lp <> [] -> Forall (ssink_wf v) ss ->
+  dispatch_event src_hoist v apply_spec {| po_pattern := print lp; po_add_meta := am |}
                  (map to_sink ss) st lv
-  = (spec_writes apply_spec lp am ss st lv, None).
+  = (spec_writes v apply_spec lp am ss st lv, None).
 Proof. rewrite src_hoist_false. apply dispatch_spec. Qed.
